@@ -12,6 +12,7 @@ import Proofs.C04_Hist
 import Proofs.C04_Family
 import Proofs.C04_Orient
 import Proofs.C04_Source
+import Proofs.C04_Ladder
 import Mathlib.Tactic.Ring
 import Mathlib.Tactic.Linarith
 import Mathlib.Tactic.Positivity
@@ -398,6 +399,104 @@ theorem rotate_total_rat (b : Box ℚ) (hV : M3.det b.vects ≠ 0) (U : M3 Int)
     (h : rotateRaw Rat.floor b U atoms = some (nb, kept)) :
     kept.length = (M3.det U).natAbs * atoms.length :=
   rotate_total Rat.floor rat_floor_eq b hV U atoms hin nb kept h
+
+/-! ### round 6: end to end — the calls as the user writes them -/
+
+section api
+variable {K : Type} [Field K] [LinearOrder K] [IsStrictOrderedRing K]
+
+/-- **`System.supersize(a_size, b_size, c_size)` end to end**: for every accepted triple of arguments (non-zero
+    integers / two-sided ranges around 0, in any mixture) the call returns; the multipliers are positive; the atom count
+    and the (signed) volume are multiplied by their product; every atom of the result carries the type and the per-atom
+    values of an original atom.  (Position, order and distinctness of the replicas: `supersize_get`, `replicaPos_eq`,
+    `replica_injective` apply to the `sa sb sc` named here.) -/
+theorem supersizeApi_ok (b : Box K) (a0 a1 a2 : SizeArg) (atoms : List (Atom K))
+    (h : a0.Accepted ∧ a1.Accepted ∧ a2.Accepted) :
+    ∃ sa sb sc, a0.resolve = .ok sa ∧ a1.resolve = .ok sb ∧ a2.resolve = .ok sc ∧
+      supersizeApi b a0 a1 a2 atoms = .ok (superBox b sa sb sc, supersizeAtoms b sa sb sc atoms) ∧
+      0 < sa.mult ∧ 0 < sb.mult ∧ 0 < sc.mult ∧
+      ((supersizeAtoms b sa sb sc atoms).length : Int) = sa.mult * sb.mult * sc.mult * atoms.length ∧
+      M3.det (superBox b sa sb sc).vects = ((sa.mult * sb.mult * sc.mult : Int) : K) * M3.det b.vects ∧
+      ∀ a' ∈ supersizeAtoms b sa sb sc atoms, ∃ a ∈ atoms, a'.atype = a.atype ∧ a'.extra = a.extra := by
+  obtain ⟨sa, ha⟩ := (resolve_ok_iff a0).mpr h.1
+  obtain ⟨sb, hb⟩ := (resolve_ok_iff a1).mpr h.2.1
+  obtain ⟨sc, hc⟩ := (resolve_ok_iff a2).mpr h.2.2
+  have pa := (resolve_spec a0 sa ha).1
+  have pb := (resolve_spec a1 sb hb).1
+  have pc := (resolve_spec a2 sc hc).1
+  refine ⟨sa, sb, sc, ha, hb, hc, ?_, pa, pb, pc, ?_, ?_, supersize_copies_payload b sa sb sc atoms⟩
+  · have hr := (resolveSizes_ok a0 a1 a2 sa sb sc).mpr ⟨ha, hb, hc⟩
+    simp [supersizeApi, hr, supersize]
+  · rw [supersize_length]
+    push_cast
+    rw [Int.toNat_of_nonneg (le_of_lt pa), Int.toNat_of_nonneg (le_of_lt pb), Int.toNat_of_nonneg (le_of_lt pc)]
+    ring
+  · rw [superBox_volume]; push_cast; ring
+
+/-- **refusal theorem for the call**: `supersize` raises exactly when one of the three arguments is not accepted. -/
+theorem supersizeApi_refuses_iff (b : Box K) (a0 a1 a2 : SizeArg) (atoms : List (Atom K)) :
+    (∃ e, supersizeApi b a0 a1 a2 atoms = .error e) ↔ ¬ (a0.Accepted ∧ a1.Accepted ∧ a2.Accepted) := by
+  rw [← resolveSizes_ok_iff]
+  unfold supersizeApi
+  cases hr : resolveSizes a0 a1 a2 with
+  | error e => simp
+  | ok r => obtain ⟨sa, sb, sc⟩ := r; simp
+
+example : ∃ r, supersizeApi (⟨M3.one, ⟨0, 0, 0⟩⟩ : Box ℚ) (.int (-2)) (.pair (-1) 1) (.int 1) [⟨1, ⟨0, 0, 0⟩, []⟩] = .ok r ∧
+    r.2.length = 4 := ⟨_, rfl, by decide⟩
+
+end api
+
+section ladder
+variable {K : Type} [Field K] [LinearOrder K] [IsStrictOrderedRing K] [FloorRing K]
+
+/-- `rotateRaw` is the exact half-open filter over `rotateSup`. -/
+theorem rotateRaw_eq_sup (fl : K → Int) (b : Box K) (U : M3 Int) (atoms : List (Atom K)) (hU : M3.det U ≠ 0) :
+    rotateRaw fl b U atoms = some ((rotateSup fl b U atoms).1,
+      (rotateSup fl b U atoms).2.filter fun a => inHalfOpen ((rotateSup fl b U atoms).1.cartToRel a.pos)) := by
+  unfold rotateRaw rotateSup
+  rw [if_neg hU]
+
+/-- **`System.rotate` WITH its tolerance ladder, end to end**: for a non-degenerate box with every atom inside it (far
+    faces included) and any integer vectors: if the first rung `t` of the ladder decides every atom of the bounding
+    supercell as the exact test does (no atom within `t` of a face of the new cell: `ladderKeep_away`), the ladder stops
+    at that rung and the call returns what the exact model `rotate` returns — exactly `|det U|` images of every atom
+    (`rotate_count`); "Filtering failed" is not raised. -/
+theorem rotateLadder_first_rung (fl : K → Int) (hfl : ∀ x, fl x = ⌊x⌋) (b : Box K) (hV : M3.det b.vects ≠ 0) (U : M3 Int)
+    (hU : M3.det U ≠ 0) (atoms : List (Atom K)) (hin : ∀ a ∈ atoms, InBox (b.cartToRel a.pos)) (t : K) (ts : List K)
+    (hclear : ∀ a ∈ (rotateSup fl b U atoms).2,
+      ladderKeep t ((rotateSup fl b U atoms).1.cartToRel a.pos) = inHalfOpen ((rotateSup fl b U atoms).1.cartToRel a.pos)) :
+    rotateLadder fl (t :: ts) b U atoms = rotate fl b U atoms ∧
+    ∃ r, rotate fl b U atoms = .ok r ∧ r.2.length = (M3.det U).natAbs * atoms.length := by
+  refine ⟨?_, rotate_ok fl hfl b hV U hU atoms hin⟩
+  by_cases h1 : U = M3.one
+  · simp [rotateLadder, rotate, h1]
+  · obtain ⟨kept, hraw, hchk, hlen⟩ := rotate_check_passes fl hfl b hV U hU atoms hin
+    have hs := rotateRaw_eq_sup fl b U atoms hU
+    rw [hraw] at hs
+    have hk : kept = (rotateSup fl b U atoms).2.filter
+        fun a => inHalfOpen ((rotateSup fl b U atoms).1.cartToRel a.pos) := by
+      have := Option.some.inj hs
+      exact (Prod.mk.inj this).2
+    have hnb : (rotateSup fl b U atoms).1 = ⟨newVects U b.vects, ⟨0, 0, 0⟩⟩ := by
+      have := Option.some.inj hs
+      exact ((Prod.mk.inj this).1).symm
+    have hf : ladderFilter t (rotateSup fl b U atoms).1 (rotateSup fl b U atoms).2 = kept := by
+      rw [hk]; unfold ladderFilter
+      exact List.filter_congr hclear
+    simp only [rotateLadder, rotate, if_neg h1, if_neg hU]
+    rw [ladderLoop_first _ _ _ t ts (by rw [hf]; exact hlen), hf, hchk, hnb]
+
+/-- the driver's instance. -/
+theorem rotateLadder_first_rung_rat (b : Box ℚ) (hV : M3.det b.vects ≠ 0) (U : M3 Int) (hU : M3.det U ≠ 0)
+    (atoms : List (Atom ℚ)) (hin : ∀ a ∈ atoms, InBox (b.cartToRel a.pos)) (t : ℚ) (ts : List ℚ)
+    (hclear : ∀ a ∈ (rotateSup Rat.floor b U atoms).2,
+      ladderKeep t ((rotateSup Rat.floor b U atoms).1.cartToRel a.pos)
+        = inHalfOpen ((rotateSup Rat.floor b U atoms).1.cartToRel a.pos)) :
+    rotateLadder Rat.floor (t :: ts) b U atoms = rotate Rat.floor b U atoms :=
+  (rotateLadder_first_rung Rat.floor rat_floor_eq b hV U hU atoms hin t ts hclear).1
+
+end ladder
 
 /-! ### non-vacuity -/
 example : decode 2 3 2 (encode 2 3 2 1 2 1 4) = (1, 2, 1, 4) := by decide
